@@ -3,15 +3,20 @@ import math
 
 from harness import dtwgen
 
-COQ_FILES = ["theories/BandTie.v", "props/C04.v"]
+COQ_FILES = ["theories/BandTie.v", "theories/PyWps.v", "theories/PyWpsProofs.v", "props/C04.v"]
 THEOREMS = [("DVProps.C04", "C04_cell_lower_bound"), ("DVProps.C04", "C04_cell_attained"),
-            ("DVProps.C04", "C04_matrix_shape"), ("DVProps.C04", "C04_out_of_band_inf")]
+            ("DVProps.C04", "C04_matrix_shape"), ("DVProps.C04", "C04_out_of_band_inf"),
+            ("DVProps.C04", "C04_code_matrix_is_spec"), ("DVProps.C04", "C04_code_matrix_with_bound"),
+            ("DVProps.C04", "C04_code_value")]
 TRUSTED_BASE = [
     "Coq 8.16.1 kernel (no native_compute)",
     "tools/translate_py.py (band expressions of dtw.warping_paths regenerated into coq/gen/Gen_dtw.v)",
     "extraction (ExtrOcamlBasic only) + coq/extract/driver.ml",
-    "correspondence harness harness/props/C04.py: loop skeletons of dtw.warping_paths and of the C fill/expand "
-    "routines are tied by correspondence only",
+    "dtw.warping_paths is modelled as written (PyWps.wps_code_model: band from the regenerated expressions, pruning "
+    "bookkeeping, borders, end scans) and PROVED against the specification (C04_code_matrix_is_spec / _with_bound / "
+    "_code_value); the hand model is tied to the code by correspondence: value and EVERY cell, pruned cells included "
+    "(oracle command pywps)",
+    "the C fill/expand routines (compact layout) are tied by correspondence only",
     "binary64 arithmetic exact on the integer-valued stream; sqrt correctly rounded",
 ]
 ASSUMPTIONS = ["exact arithmetic", "freedom of the property applied in judge(): cells above max_dist may be inf or "
@@ -63,6 +68,23 @@ def expected(cases, oracle):
             continue
         m = [[math.inf if t == "inf" else int(t) for t in row.split()] for row in a.split(" ; ")]
         out.append({"m": m, "d": math.inf if b == "inf" else int(b)})
+    # dtw.warping_paths as written (proved against the specification): exact prediction of value and matrix
+    idx, lines = [], []
+    for k, c in enumerate(cases):
+        if c["site"] != "py.wps" or "err" in out[k]:
+            continue
+        adj, _ = _bounds(c)
+        idx.append(k)
+        lines.append(dtwgen.oracle_line("pywps %d 1" % (-1 if adj is None else adj), c))
+    for k, a in zip(idx, oracle.query(lines)):
+        if a.startswith("ERR"):
+            out[k]["code"] = {"err": a}
+        elif a == "none":
+            out[k]["code"] = None
+        else:
+            d, mt = a.split(" | ")
+            out[k]["code"] = {"d": math.inf if d == "inf" else int(d),
+                              "m": [[math.inf if t == "inf" else int(t) for t in row.split()] for row in mt.split(" ; ")]}
     return out
 
 
@@ -184,6 +206,10 @@ def judge(case, got, exp):
     if "exc" in got:
         return {"kind": "exception:" + got["exc"], "detail": got.get("msg")}
     g = got["ok"]
+    if "code" in exp:
+        mm = judge_as_written(case, exp["code"], g)
+        if mm is not None:
+            return mm
     ed = expected_d(case, exp)
     # too_long: python returns a bare inf instead of (inf, matrix)
     if not isinstance(g, dict):
@@ -207,6 +233,29 @@ def judge(case, got, exp):
             mm["slice"] = s["sl"]
             mm["kind"] = ("expand:" if k == 0 else "slice:") + mm["kind"]
             return mm
+    return None
+
+
+def judge_as_written(case, code, g):
+    """the extracted as-written model of dtw.warping_paths predicts the implementation exactly: the value and every
+    cell, including the cells early abandoning leaves at inf (psi_neg marks -1 are skipped)."""
+    if isinstance(code, dict) and "err" in code:
+        return {"kind": "oracle-error", "detail": code["err"]}
+    if code is None:
+        return None if not isinstance(g, dict) else {"kind": "as-written-model-differs:bare-inf-expected", "got": str(g)[:80]}
+    if not isinstance(g, dict):
+        return {"kind": "as-written-model-differs:matrix-expected", "got": str(g)[:80]}
+    if float(g["d"]) != _transform(code["d"], case):
+        return {"kind": "as-written-model-differs:value", "got": g["d"], "model": _transform(code["d"], case)}
+    m = g["m"]
+    if len(m) != len(code["m"]) or any(len(a) != len(b) for a, b in zip(m, code["m"])):
+        return {"kind": "as-written-model-differs:shape"}
+    for i, (ra, rb) in enumerate(zip(m, code["m"])):
+        for j, (x, y) in enumerate(zip(ra, rb)):
+            if case.get("psi_neg") and float(x) == -1:
+                continue
+            if float(x) != _transform(y, case):
+                return {"kind": "as-written-model-differs:cell", "cell": [i, j], "got": float(x), "model": _transform(y, case)}
     return None
 
 
